@@ -24,7 +24,7 @@ ASSUMPTIONS = ['initial sets are passed as lists (a set argument legitimately it
 BUDGET = {'quick': 160, 'thorough': 1500}
 CHUNK = {'quick': 25, 'thorough': 100}
 CASE_TIMEOUT = 1800
-REQUIRED = ['uneven_weight_runs', 'repeat_pairs_compared', 'tripwire_calls_monitored', 'mode_pairs_compared', 'hash_batches', 'hash_digests_compared']
+REQUIRED = ['aborted_runs_injected', 'uneven_weight_runs', 'repeat_pairs_compared', 'tripwire_calls_monitored', 'mode_pairs_compared', 'hash_batches', 'hash_digests_compared']
 CONT = [s for s in simreg.ALL_SIMS if s not in simreg.DISCRETE]
 
 
@@ -155,6 +155,49 @@ class _Spy(object):
         return a
 
 
+class _Injected(BaseException):
+    pass
+
+
+class _FaultyRandom(object):
+    """stands in for the module `random` inside EoN.simulation: passes everything through and raises at the k-th call"""
+    def __init__(self, k):
+        self._k = k
+        self._n = 0
+
+    def __getattr__(self, name):
+        a = getattr(random, name)
+        if not callable(a):
+            return a
+
+        def w(*args, **kw):
+            self._n += 1
+            if self._n >= self._k:
+                raise _Injected()
+            return a(*args, **kw)
+        return w
+
+
+def _aborted_run(case, res):
+    import EoN.simulation as sim
+    c = dict(case)
+    c.pop('prehistory', None)
+    other = simreg.build_call(c)           # its own argument objects: only state kept inside the library can leak
+    k = 1 + (case['seed'] // 3) % 12
+    saved = sim.random
+    sim.random = _FaultyRandom(k)
+    try:
+        simcase.seed_all(case['seed'] + 5)
+        other.f(*other.args, **other.kw)
+        bump(res, 'aborted_runs_finished_before_the_fault')
+    except _Injected:
+        bump(res, 'aborted_runs_injected')
+    except Exception:
+        bump(res, 'aborted_runs_other_exception')
+    finally:
+        sim.random = saved
+
+
 def _digest(call, out):
     return canon_bytes(call, out)
 
@@ -185,6 +228,10 @@ def run_case(case):
         if case.get('uneven'):
             bump(res, 'uneven_weight_runs')
         st_a = (random.getstate(), np.random.get_state()[1].tobytes(), np.random.get_state()[2])
+        if case['seed'] % 3 == 0:
+            # between the two calls another run of the same simulator dies half-way (Ctrl-C, an exception from a user callback, ...):
+            # an exception is injected at the k-th draw from the random module.  Nothing of the dead run may leak into the next call.
+            _aborted_run(case, res)
         # "repeated calls": the caller naturally passes the very same argument objects again (graph, IC mapping, spec graphs, containers)
         call2 = call
         simcase.seed_all(case['seed'])
